@@ -70,7 +70,7 @@ P("C02", level="proof", design_ref="7/C02", units=uniq(GF + ["L.gf.single", "L.g
        "over those contracts with every coefficient, position and value symbolic; the decoders' and polyseed_load's contracts show the "
        "checksum status is returned exactly when the evaluation is non-zero, before any allocation (decoders) and with no seed surviving.",
   note="'another word of the same list' = another coefficient by the closed fact T.distinct (all words pairwise distinct under the comparer).")
-P("C03", level="proof", design_ref="7/C03", units=uniq(["U.gf.pack", "U.gf.encode", "L.gf.unique", "U.api.encode", "U.str.write", "U.str.write.full", "U.api.create", "L.rt.index"] + ["U.api.encode@ndebug", "U.api.create@ndebug"]), engines=["tables", "statics"],
+P("C03", level="proof", design_ref="7/C03", units=uniq(["U.gf.pack", "U.gf.encode", "L.gf.unique", "U.api.encode", "U.str.write", "U.str.write.full", "U.api.create", "L.rt.index"] + ["U.api.encode@ndebug", "U.api.create@ndebug"]), engines=["tables", "statics", "calls"],
   technique='CBMC 6.11 contracts: dfcc-enforced contract of polyseed_data_to_poly against the published layout written independently; harness-enforced sequence contract of polyseed_encode; write_str proved with a woven loop invariant; registry/golden facts exhaustive; goto symbol-table scan for hidden state (purity)',
   text="polyseed_data_to_poly is proved equal to the published layout written independently in spec.h (check word first, 10 secret bits MSB "
        "first + one feature/birthday bit per word); polyseed_encode is proved to use the stored check value as word 1, XOR the coin into word 2 "
@@ -147,7 +147,7 @@ P("C12", level="proof", design_ref="7/C12", units=uniq(uniq(["U.api.crypt", "L.c
   note="'NFKD(password)' is the injected dependency's result (utf8_nfkd_lazy proved to call it iff a non-ASCII byte occurs in the first "
        "POLYSEED_STR_SIZE-1 bytes); longer ASCII passwords are truncated by the library -- outside the claimed domain, reported as an observation.")
 P("C13", level="proof", design_ref="7/C13", units=uniq(uniq(API_D + DEC + ["U.api.crypt", "U.api.encode", "U.ft.enable", "U.dep.inject", "U.gf.mul2"] + PACK + ["L.st.inv1", "L.rt.index", "L.crypt.involution"] + GF + FT + BD + ["U.st.store", "U.st.load", "L.st.inv2", "U.dep.stdlib_time"]) + NDEBUG),
-  engines=["statics"],
+  engines=["statics", "calls"],
   technique='CBMC 6.11 contracts: representation invariant established / preserved by every operation (dfcc and harness-enforced contracts), frames by assigns clauses and snapshots; goto symbol-table and goto-program scan: the only mutable statics and their only writers; induction over histories is glue',
   text="Data refinement step by step: every constructor establishes the representation invariant (canonical) from a block with arbitrary "
        "contents, crypt preserves it, observers are functions of the abstract view; frames proved by dfcc assigns clauses / snapshots; the "
